@@ -373,10 +373,28 @@ def opUpdate (req : Json) : Except String Json := do
     pure ((← getStr a[0]!), (← getFileMeta a[1]!))
   let post : Str → Option L1.FileMeta := fun p => (postL.find? (·.1 == p)).map (·.2)
   let doSave ← (match req.getObjVal? "do_save" with | .ok j => j.getBool? | .error _ => pure true)
+  let setTs : Option (Ts × Bool) ← (match req.getObjVal? "set_ts" with
+    | .ok Json.null => pure none
+    | .ok j => do
+      let a ← j.getArr?
+      let f ← (a[0]!).getArr?
+      let n (i : Nat) : Except String Nat := (f[i]!).getNat?
+      pure (some (⟨← n 0, ← n 1, ← n 2, ← n 3, ← n 4, ← n 5⟩, ← (a[1]!).getBool?))
+    | .error _ => pure none)
   let r : Except L1.Err (U.St × List U.Write) := do
     let s ← U.openForUpdate w top create prof xdev
     let s1 ← U.updateDir w s path { hashes := hashes, profile := prof, lastMtime := lm }
-    if doSave then U.saveAll w post s1 so else pure (s1, [])
+    -- the CLI's TIMESTAMP refresh between scan and save: `ts.ts = start_ts` on the first TIMESTAMP entry
+    -- found (deepest Manifest for '' first), or `set_timestamp` appending one to the top-level Manifest
+    let s2 : U.St := match setTs with
+      | none => s1
+      | some (ts, addIfMissing) =>
+        let found := ((L1.iterManifests s1.plain [] false).flatMap fun (k, _, _) =>
+          (s1.entriesOf k).filter fun ie => match ie.2 with | .timestamp _ => true | _ => false).head?
+        match found with
+        | some (id, _) => s1.setVal id (.timestamp ts)
+        | none => if addIfMissing then s1.append s1.top (.timestamp ts) else s1
+    if doSave then U.saveAll w post s2 so else pure (s2, [])
   pure (Json.mkObj [("model", match r with
     | .error e => jErr e
     | .ok (s, ws) => Json.mkObj [
